@@ -204,6 +204,18 @@ def c06_milestones(spec, obs, sc=0):
         st, en = rec["start"][sc], rec["end"][sc]
         if st != en:
             v.append(("milestone-length", f"milestone {fid}: start {st} != end {en}"))
+        if (not t.get("start")) and (not t.get("end")) and rec["forward"][sc] is False:
+            # backward: the bound is the earliest successor start minus its gap (successors = leaves with an own or
+            # inherited on-end edge naming this milestone); judged when there is one and no enclosing container is dated
+            if any(deps.node[a].get("end") or deps.node[a].get("start") for a in deps.ancestors(fid)):
+                continue
+            succ = [(o, g) for o in deps.leaves() if o != fid for p, k, g in deps.edges(o) if p == fid and k == "end"]
+            if succ and all(tix.get(o) and tix[o]["sched"][sc] and tix[o]["start"][sc] is not None for o, _g in succ):
+                bound = min(tix[o]["start"][sc] - timedelta(seconds=g) for o, g in succ)
+                n += 1
+                if st != bound:
+                    v.append(("milestone-bound", f"backward milestone {fid} at {st}, earliest successor start minus gap is {bound}"))
+            continue
         if t.get("start") or t.get("end") or rec["forward"][sc] is False:
             continue
         edges = deps.edges(fid)
